@@ -93,6 +93,38 @@ def gen_strict(rng: random.Random, max_groups: int = 4, max_feats: int = 9, grou
     return {"groups": groups, "request": req}
 
 
+def gen_cross(rng: random.Random, cfw: str = "PyArrowTable") -> Dict[str, Any]:
+    """2-3 derived groups whose features take their inputs from the root or from ONE feature of another group: features of
+    one group are mostly unrelated to each other, so a group is often a single step and the steps of two groups may
+    require each other (the cross-group cycle of PlannerA_plan_wf_refuted), or the level split resolves it."""
+    cols = {c: [rng.randrange(-5, 20) for _ in range(3)] for c in ["a", "b"][: rng.randrange(1, 3)]}
+    k = rng.randrange(2, 4)
+    feats: List[Dict[str, Any]] = [dict() for _ in range(k)]
+    home: Dict[str, int] = {}
+    order: List[str] = []
+    for i in range(rng.randrange(3, 9)):
+        gi = rng.randrange(k)
+        others = [n for n in order if home[n] != gi]
+        if others and rng.random() < 0.6:
+            ins = [rng.choice(others)]
+            if rng.random() < 0.3:
+                ins.append(rng.choice(list(cols)))
+        else:
+            ins = [rng.choice(list(cols))]
+        name = f"f{i + 1}"
+        feats[gi][name] = {"inputs": ins, "c0": rng.randrange(-3, 4), "coefs": [rng.choice([1, 2, -1]) for _ in ins]}
+        home[name] = gi
+        order.append(name)
+    groups: List[Dict[str, Any]] = [{"name": "R0", "kind": "root", "cfw": cfw, "cols": cols}]
+    for gi, f in enumerate(feats):
+        if f:
+            groups.append({"name": f"D{gi + 1}", "kind": "derived", "cfw": cfw, "features": f})
+    used = {i for f in feats for d in f.values() for i in d["inputs"]}
+    leaves = [n for n in order if n not in used]
+    req = leaves if rng.random() < 0.7 else rng.sample(order, rng.randrange(1, min(3, len(order)) + 1))
+    return {"groups": groups, "request": req}
+
+
 def spec_cross_cycle() -> Dict[str, Any]:
     """The smallest request whose plan deadlocks: D1 = {a1 <- r, a2 <- b2}, D2 = {b1 <- a1, b2 <- r}; no feature of a group
     depends on another one of the same group, so each group is ONE step and the two steps require each other."""
@@ -238,6 +270,7 @@ def check_plans(specs: List[Dict[str, Any]], rep_prefix: str, keep_sessions: boo
         bad_rp, _ = vlib.run_cases(rep_prefix, "planA_reqplan", REQ, "chk_request_plan", terms, case_type="pcase", shard=40)
         not_wf = set(vlib.run_cases(rep_prefix, "planA_wf", REQ, "model_wf", terms, case_type="pcase", shard=40)[0])
         not_dag = set(vlib.run_cases(rep_prefix, "planA_dag", REQ, "model_group_dag", terms, case_type="pcase", shard=40)[0])
+        not_ddag = set(vlib.run_cases(rep_prefix, "planA_ddag", REQ, "model_defs_group_dag", terms, case_type="pcase", shard=40)[0])
         not_cov = set(vlib.run_cases(rep_prefix, "planA_cov", REQ, "model_req_covers", terms, case_type="pcase", shard=40)[0])
         stage_of: Dict[int, str] = {}
         if bad:
@@ -262,13 +295,20 @@ def check_plans(specs: List[Dict[str, Any]], rep_prefix: str, keep_sessions: boo
         for k in sorted(not_wf - not_dag):
             out.append({"spec": specs[idx[k]], "stage": "model_wf",
                         "what": "model plan not well formed although the groups form a DAG (contradicts theorem plan_wf)"})
+        for k in sorted(not_dag - not_ddag):
+            out.append({"spec": specs[idx[k]], "stage": "model_group_dag",
+                        "what": "definitions form a group DAG but the graph does not (contradicts theorem request_group_dag)"})
         for k, o in enumerate(obs):
             cases.append({"index": idx[k], "model_wf": k not in not_wf, "group_dag": k not in not_dag,
+                          "defs_group_dag": k not in not_ddag,
                           "steps": len(o["plan"]), "nodes": len(o["g"]),
                           "levels": len(o["plan"]) > len({gr for _, gr, _, _, _ in o["g"]}),
                           "session": o["session"] if keep_sessions else None})
         info["model_not_wf"] = len(not_wf)
         info["group_cycle"] = len(not_dag)
+        # known-defect domain (PlannerA_plan_wf_refuted): accepted plans whose wait-for relation is cyclic; the real plan
+        # equals the model's (checked above), so the real run never returns
+        info["deadlock_specs"] = [specs[idx[k]] for k in sorted(not_wf)]
     info["cases"] = cases
     info["disagreements"] = len(out)
     LAST_INFO.clear()
@@ -284,11 +324,13 @@ def main(argv: List[str]) -> int:
     rng = random.Random(seed)
     specs = [spec_diamond_chain(), spec_cross_cycle()]
     for i in range(n):
-        specs.append(daggen.gen_single_root(rng, multi_cfw=False) if i % 3 == 0 else gen_strict(rng))
+        specs.append(daggen.gen_single_root(rng, multi_cfw=False) if i % 3 == 0 else (gen_cross(rng) if i % 3 == 1 else gen_strict(rng)))
+    pr = vlib.build_props("PlannerA")
+    print("Props/PlannerA.v:", "ok" if pr.ok else "BROKEN", f"{pr.discharged}/{pr.obligations} statements,", sorted(set(pr.assumptions)))
     dis = check_plans(specs, "PlannerA", keep_sessions=True)
     info = dict(LAST_INFO)
     cases = info.pop("cases")
-    print({k: v for k, v in info.items() if k != "coq"})
+    print({k: v for k, v in info.items() if k not in ("coq", "deadlock_specs")})
     print("steps histogram:", sorted({c["steps"]: sum(1 for d in cases if d["steps"] == c["steps"]) for c in cases}.items()))
     print("with level split:", sum(c["levels"] for c in cases), "group cycles:", sum(not c["group_dag"] for c in cases),
           "model plan not wf:", sum(not c["model_wf"] for c in cases))
@@ -307,7 +349,7 @@ def main(argv: List[str]) -> int:
             wrong += 1
             print("RUN MISMATCH", specs[c["index"]], "model_wf", c["model_wf"], "run", o["status"], str(o.get("exc"))[-200:])
     print("runs checked against the model's verdict:", tried, "mismatches:", wrong)
-    return 1 if (dis or wrong) else 0
+    return 1 if (dis or wrong or not pr.ok) else 0
 
 
 if __name__ == "__main__":
